@@ -54,6 +54,10 @@ TRUSTED_BASE = [
 ]
 
 
+# back end for case terms: "coq" (vm_compute inside coqc) or "ocaml" (extracted model, Zarith rationals)
+BACKEND = ["coq"]
+
+
 # ----------------------------------------------------------------- rationals
 def frac(x) -> Fraction:
     if isinstance(x, Fraction):
@@ -71,6 +75,9 @@ def qlit(x) -> str:
 
 
 def qclit(x) -> str:
+    if BACKEND[0] == "ocaml":
+        x = frac(x)
+        return f'(q "{x.numerator}/{x.denominator}")'
     return f"(Q2Qc {qlit(x)})"
 
 
@@ -96,6 +103,8 @@ def coq_bool(b) -> str:
 
 
 def coq_nat(n) -> str:
+    if BACKEND[0] == "ocaml":
+        return f"(nat {int(n)})"
     return f"{int(n)}%nat"
 
 
@@ -309,6 +318,108 @@ def coq_eval(name: str, header: str, terms: list[str], shard=200, timeout=300, j
     for v in out_vals:
         flat.extend(v)
     return flat
+
+
+OCAML_DIR = os.path.join(WORK, "ocaml")
+
+
+def ensure_extracted():
+    """(Re)extract the model to OCaml and compile model+helpers once per process / model change."""
+    os.makedirs(OCAML_DIR, exist_ok=True)
+    stamp = os.path.join(OCAML_DIR, "helpers.cmx")
+    srcs = [os.path.join(COQ, "Extract", "Extract.v"), os.path.join(COQ, "Run", "GenRun.vo"),
+            os.path.join(VERIF, "harness", "ocaml", "helpers.ml")]
+    if os.path.exists(stamp) and all(os.path.exists(p) and os.path.getmtime(p) <= os.path.getmtime(stamp) for p in srcs):
+        return
+    rc, out = sh(f"timeout 300 coqc -Q {COQ} PD {COQ}/Extract/Extract.v", cwd=OCAML_DIR, timeout=330)
+    if rc != 0:
+        raise RuntimeError("extraction failed:\n" + out[-2000:])
+    shutil.copy(os.path.join(VERIF, "harness", "ocaml", "helpers.ml"), os.path.join(OCAML_DIR, "helpers.ml"))
+    rc, out = sh("ocamlfind ocamlopt -w -a -package zarith -c model.mli model.ml helpers.ml", cwd=OCAML_DIR, timeout=300)
+    if rc != 0:
+        raise RuntimeError("ocaml compilation of the extracted model failed:\n" + out[-2000:])
+
+
+def _run_ml_shard(args):
+    idx, name, terms, timeout = args
+    base = f"cases_{name}_{idx}"
+    src = os.path.join(OCAML_DIR, base + ".ml")
+    with open(src, "w") as f:
+        f.write("open Model\nopen Helpers\n")
+        for k, t in enumerate(terms):
+            f.write(f"let () = run_case {k} (fun () -> {t})\n")
+    exe = os.path.join(OCAML_DIR, base + ".exe")
+    rc, out = sh(f"ocamlfind ocamlopt -w -a -package zarith -linkpkg model.cmx helpers.cmx {base}.ml -o {base}.exe",
+                 cwd=OCAML_DIR, timeout=600)
+    if rc != 0:
+        return idx, rc, "COMPILE: " + out[-2000:], []
+    try:
+        rc, out = sh(f"ulimit -s unlimited 2>/dev/null; timeout {timeout} ./{base}.exe", cwd=OCAML_DIR, timeout=timeout + 30)
+    except subprocess.TimeoutExpired:
+        rc, out = 124, ""
+    for ext in (".ml", ".exe", ".cmx", ".cmi", ".o"):
+        p_ = os.path.join(OCAML_DIR, base + ext)
+        if os.path.exists(p_):
+            os.remove(p_)
+    vals = []
+    for ln in out.splitlines():
+        if ln.startswith("E "):
+            vals.append("EVAL-FAILED: " + ln[2:])
+        elif ln.strip():
+            vals.append([int(x) for x in ln.split()])
+    return idx, rc, out[-500:], vals
+
+
+def ml_eval(name: str, terms: list[str], shard=50, timeout=900, jobs=16):
+    """Evaluate case terms with the extracted OCaml model (Zarith rationals). Same result format as coq_eval."""
+    ensure_extracted()
+    shards = [terms[i:i + shard] for i in range(0, len(terms), shard)]
+    res = [None] * len(shards)
+    with cf.ThreadPoolExecutor(max_workers=jobs) as ex:
+        for idx, rc, out, vals in ex.map(_run_ml_shard, [(i, name, s, timeout) for i, s in enumerate(shards)]):
+            if out.startswith("COMPILE:"):
+                raise RuntimeError(f"ocaml case file failed to compile ({name}):\n{out}")
+            if len(vals) < len(shards[idx]):
+                vals = vals + ["EVAL-FAILED: timeout or crash"] * (len(shards[idx]) - len(vals))
+            res[idx] = vals
+    flat = []
+    for v in res:
+        flat.extend(v)
+    return flat
+
+
+def model_eval(name, header, terms, backend="ocaml", **kw):
+    """Evaluate model terms; terms must have been emitted under the same BACKEND."""
+    if backend == "ocaml":
+        return ml_eval(name, terms, shard=kw.get("shard", 50), timeout=kw.get("timeout", 900))
+    return coq_eval(name, header, terms, **{k: v for k, v in kw.items() if k in ("shard", "timeout", "case_timeout")})
+
+
+def dual_eval(name, header, emitters, sample=2, shard=50, timeout=900, coq_case_timeout=120):
+    """emitters: list of zero-argument functions producing a case term under the CURRENT lib.BACKEND.
+
+    All cases are evaluated with the extracted OCaml model; `sample` of them (the cheapest-looking: shortest
+    terms) are ALSO evaluated inside Coq by vm_compute and must agree exactly, which ties the OCaml
+    FieldOps dictionary / extraction to the in-Coq evaluation on every run.  Returns (values, crosscheck_info).
+    """
+    BACKEND[0] = "ocaml"
+    terms = [f() for f in emitters]
+    vals = ml_eval(name, terms, shard=shard, timeout=timeout)
+    BACKEND[0] = "coq"
+    order = sorted(range(len(terms)), key=lambda i: len(terms[i]))[:sample]
+    cterms = [emitters[i]() for i in order]
+    BACKEND[0] = "ocaml"
+    info = {"crosschecked": 0, "skipped": 0}
+    if cterms:
+        cv = coq_eval(name + "x", header, cterms, shard=1, timeout=coq_case_timeout, case_timeout=coq_case_timeout)
+        for i, v in zip(order, cv):
+            if isinstance(v, str) or isinstance(vals[i], str):
+                info["skipped"] += 1
+                continue
+            if v != vals[i]:
+                raise RuntimeError(f"extracted OCaml model and in-Coq evaluation disagree on case {i} of {name}")
+            info["crosschecked"] += 1
+    return vals, info
 
 
 def decode_optQ(v):
